@@ -135,6 +135,21 @@ Theorem C14_discard_complete : forall id s (ord : order),
 Proof. exact Txn_proofs.discard_complete. Qed.
 Print Assumptions C14_discard_complete.
 
+(** Discard is completable: after a Discard of an in-progress transaction cut at ANY point
+    (crash or failing write n), either the transaction is still there and a healthy re-run of
+    Discard (any order) succeeds and leaves no staged ref of it and no transaction row - so staged
+    refs never outlive their transaction row -, or the cut run had performed everything and
+    returned success.  (Relies on the transaction row being deleted LAST.) *)
+Theorem C14_discard_rerun : forall id s (ord1 ord2 : order) n,
+  txs s id = Some InProgress -> order_ok ord1 (staged s id) ->
+  let s1 := fst (run_upto n (tx_discard ord1 id s) s) in
+  order_ok ord2 (staged s1 id) ->
+  (txs s1 id = Some InProgress /\
+   exists s2, run_full (tx_discard ord2 id s1) s1 = (s2, ROk) /\ staged s2 id = [] /\ txs s2 id = None) \/
+  (txs s1 id = None /\ staged s1 id = [] /\ snd (run_upto n (tx_discard ord1 id s) s) = ROk).
+Proof. exact Txn_proofs.discard_rerun. Qed.
+Print Assumptions C14_discard_rerun.
+
 (** The enumeration orders the executable model is run with are permutations. *)
 Theorem C14_orders : forall perm l, NoDup perm -> order_ok (ord_by perm) l.
 Proof. exact Txn_proofs.ord_by_ok. Qed.
